@@ -37,6 +37,55 @@ pub struct Case {
     pub keep_known: bool,
 }
 
+/// Systematic family: every enum declaration form x awkward enumerator names (Rust keywords,
+/// primitive type names) x repeated / negative / wide values, under every enum style with and
+/// without name prepending. The random generator reaches (style, keyword, duplicate) triples rarely.
+fn enum_grid() -> Vec<Case> {
+    use crate::cmodel::{Comp, Decl, EnumDecl, Field, FieldTy, Prim, Program, Ty, KEYWORD_ENUMERATORS};
+    let mut cases = vec![];
+    let styles = ["consts", "moduleconsts", "rust", "rust_non_exhaustive", "newtype", "newtype_global", "bitfield"];
+    // three programs with different keyword placements
+    for round in 0..3usize {
+        let kw = |k: usize| KEYWORD_ENUMERATORS[(round * 11 + k * 3) % KEYWORD_ENUMERATORS.len()].to_string();
+        let mut decls = vec![];
+        let forms: [(Option<&str>, Option<&str>); 3] = [(Some("Named"), None), (None, Some("Typedefd_t")), (Some("Both"), Some("Both_t"))];
+        for (fi, (tag, td)) in forms.iter().enumerate() {
+            // plain first, then a keyword that repeats the first value, a keyword with a fresh value,
+            // a plain repeat, a negative and a wide value
+            let variants = vec![
+                (format!("G{round}_{fi}_A"), Some(0)),
+                (format!("G{round}_{fi}_B"), Some(1)),
+                (kw(fi * 2), Some(0)),
+                (kw(fi * 2 + 1), Some(7)),
+                (format!("G{round}_{fi}_DUP"), Some(1)),
+                (format!("G{round}_{fi}_NEG"), if fi == 1 { Some(-3) } else { None }),
+                (format!("G{round}_{fi}_WIDE"), if fi == 2 { Some(1i128 << 40) } else { None }),
+            ];
+            decls.push(Decl::Enum(EnumDecl { tag: tag.map(|t| format!("{t}{round}")), variants, underlying: if fi == 0 && round == 1 { Some(Prim::UChar) } else { None }, typedef_name: td.map(|t| format!("{t}{round}")) }));
+        }
+        // an enum whose only enumerators are keywords with one repeated value
+        decls.push(Decl::Enum(EnumDecl { tag: Some(format!("AllKw{round}")), variants: vec![(kw(7), None), (kw(8), None), (kw(9), Some(0))], underlying: None, typedef_name: None }));
+        // a user of the enums
+        let fields = (0..4).map(|k| Field { name: format!("e{k}"), ty: FieldTy::Ty(Ty::Named(k)), bits: None, align: None }).collect();
+        decls.push(Decl::Comp(Comp { is_union: false, tag: Some(format!("UsesEnums{round}")), fields, packed: false, aligned: None, pragma_pack: None, typedef_name: None }));
+        let mut prog = Program { decls };
+        prog.normalise();
+        for st in styles {
+            for prepend in [true, false] {
+                let mut flags: Vec<String> = vec!["--default-enum-style".into(), st.into()];
+                if !prepend {
+                    flags.push("--no-prepend-enum-name".into());
+                }
+                if round == 2 {
+                    flags.push("--with-derive-default".into());
+                }
+                cases.push(Case { source: Source::Gen(prog.clone()), flags, callbacks: vec![], keep_known: false });
+            }
+        }
+    }
+    cases
+}
+
 const EXTRA_FLAGS: &[&[&str]] = &[
     &["--sort-semantically"],
     &["--merge-extern-blocks"],
@@ -461,7 +510,9 @@ impl Property for C01 {
         tier.pick(600, 12000)
     }
     fn fixed_cases(&self, _tier: Tier) -> Vec<Case> {
-        corpus::load_all().into_iter().filter(repo_header_usable).map(|h| Case { source: Source::Mut { header: h.name, edits: vec![], splice_from: None }, flags: vec![], callbacks: vec![], keep_known: false }).collect()
+        let mut v: Vec<Case> = corpus::load_all().into_iter().filter(repo_header_usable).map(|h| Case { source: Source::Mut { header: h.name, edits: vec![], splice_from: None }, flags: vec![], callbacks: vec![], keep_known: false }).collect();
+        v.extend(enum_grid());
+        v
     }
     fn evaluate(&self, case: &Case, env: &Env) -> Outcome {
         let mut out = Outcome::new();
